@@ -514,6 +514,10 @@ func (w *Writer) get(ref Reference, canObjStm, scalarOnly bool) (obj Native, err
 
 	obj, fileRef, err := s.ReadIndirectObject()
 	if err != nil {
+		if s.fileReader == nil && errors.Is(err, errNoStreamData) {
+			// not a defect of the file: the data cannot be reached
+			return nil, errors.New("Get() of a stream needs an io.ReaderAt")
+		}
 		return nil, err
 	}
 	if ref != fileRef {
